@@ -52,6 +52,8 @@ pub fn case_to(c: &Case) -> Value {
         "stale_output_bytes": c.input.stale_output,
         "input_files_listed_twice": c.input.listed_twice,
         "input_file_is_a_fifo": c.input.fifo,
+        "input_file_has_crlf_line_ends": c.input.crlf,
+        "values_written_with_leading_zeros": c.input.pad_values,
         "input_files": c.input.files.iter().map(|f| f.iter().map(|(k, v)| json!([k, v])).collect::<Vec<_>>()).collect::<Vec<_>>(),
         "runs": c.runs.iter().map(|r| json!({
             "batch_size": r.batch_size, "fd_limit": r.fd_limit, "threads": r.threads,
@@ -92,5 +94,7 @@ pub fn case_from(v: &Value) -> Result<Case, String> {
     let stale_output = v["stale_output_bytes"].as_u64().unwrap_or(0) as usize;
     let listed_twice = v["input_files_listed_twice"].as_array().map(|a| a.iter().filter_map(|x| x.as_u64().map(|y| y as usize)).collect()).unwrap_or_default();
     let fifo = v["input_file_is_a_fifo"].as_array().map(|a| a.iter().map(|x| x.as_bool().unwrap_or(false)).collect()).unwrap_or_default();
-    Ok(Case { input: Input { mode, files, trailing_newline, stale_output, listed_twice, fifo }, runs })
+    let crlf = v["input_file_has_crlf_line_ends"].as_array().map(|a| a.iter().map(|x| x.as_bool().unwrap_or(false)).collect()).unwrap_or_default();
+    let pad_values = v["values_written_with_leading_zeros"].as_bool().unwrap_or(false);
+    Ok(Case { input: Input { mode, files, trailing_newline, stale_output, listed_twice, fifo, crlf, pad_values }, runs })
 }
